@@ -354,6 +354,14 @@ class GitStore(Store):
                 removed.remove(name)
             if name in self._fname_to_uid and self._fname_to_uid[name][0] == etag:
                 continue
+            if name in self._fname_to_uid:
+                # The file has changed; forget the UID it used to carry.
+                old_uid = self._fname_to_uid[name][1]
+                if (
+                    old_uid is not None
+                    and self._uid_to_fname.get(old_uid, (None,))[0] == name
+                ):
+                    del self._uid_to_fname[old_uid]
             blob = self.repo.object_store[sha]
             fi = open_by_extension(blob.chunked, name, self.extra_file_handlers)
             try:
@@ -372,7 +380,7 @@ class GitStore(Store):
                 self._uid_to_fname[uid] = (name, etag)
         for name in removed:
             (unused_etag, uid) = self._fname_to_uid[name]
-            if uid is not None:
+            if uid is not None and self._uid_to_fname.get(uid, (None,))[0] == name:
                 del self._uid_to_fname[uid]
             del self._fname_to_uid[name]
 
